@@ -12,7 +12,7 @@ HDRS = $(wildcard sim/*.hpp) $(shell find $(REPO)/include -name '*.hpp')
 ASAN_OBJS = $(addprefix $(B)/asan/,$(addsuffix .o,$(GENERIC) $(addprefix pol_,$(POLS))))
 
 TSAN_FLAGS = $(COMMON) -O1 -gline-tables-only -fno-omit-frame-pointer -fsanitize=thread -DYS_NO_NEW_REPLACEMENT
-TSAN_POLS = rel dbg ind map cind sdbg thr vec sofd
+TSAN_POLS = rel dbg ind map cind sdbg thr vec sofd mapx mapy relx vecx
 TSAN_GENERIC = common plan exec gen sched atomyield twsched genglue
 WRAPPED = $(foreach n,8 32 64,$(foreach op,load store exchange fetch_add fetch_sub compare_exchange_strong compare_exchange_weak,__tsan_atomic$(n)_$(op))) __cxa_guard_acquire __cxa_guard_release __cxa_guard_abort
 WRAP_FLAGS = $(foreach s,$(WRAPPED),-Wl,--wrap=$(s))
